@@ -13,24 +13,35 @@ package limiter
 //@   ensures [C15:burst] old(opts.Burst) > 0 ==> opts.Burst == old(opts.Burst)
 
 // ---- client_limiter.go: the bucket key (C15) ---------------------------------------------------
-// netip's methods (Unmap, Is4, Is6, PrefixFrom, Masked, Addr) are executed from their real source.
+// netip's Unmap, Is4 and Is6 are executed from their real source; PrefixFrom, Prefix.Masked and Prefix.Addr are
+// used by their assumed contracts (/verif/specs/ext/std.spec).
 //@ spec func is4(a netip.Addr) bool = a.z == netip.z4
 //@ spec func isMapped(a netip.Addr) bool = a.z != netip.z0 && a.z != netip.z4 && a.addr.hi == 0 && (a.addr.lo >> 32) == 0xffff
 //@ spec func isValidAddr(a netip.Addr) bool = a.z != netip.z0
+// representation invariant of netip.Addr (every Addr netip constructs satisfies it)
+//@ spec func wfAddr(a netip.Addr) bool = (a.z == netip.z0 ==> a.addr.hi == 0 && a.addr.lo == 0) && (a.z == netip.z4 ==> a.addr.hi == 0 && (a.addr.lo >> 32) == 0xffff)
 //@ spec func masksOK(cl *ClientLimiter) bool = 1 <= cl.opts.V4Mask && cl.opts.V4Mask <= 32 && 1 <= cl.opts.V6Mask && cl.opts.V6Mask <= 128
 // the top n bits of a 64-bit word (n in 0..64)
 //@ spec func top64(n int) uint64 = ^(uint64(0xffffffffffffffff) >> uint64(n < 0 ? 0 : n))
 
+// mask: the bucket key is the client's subnet: IPv4 and IPv4-mapped IPv6 addresses are cut to V4Mask bits of
+// the IPv4 address, other IPv6 addresses to V6Mask bits with the zone dropped; an invalid address gives the
+// zero key. Nothing else of the address reaches the key.
 //@ func (cl *ClientLimiter) mask(addr netip.Addr) (r netip.Addr)
-//@   trusted
-//@   requires cl != nil
+//@   props C15
+//@   requires cl != nil && masksOK(cl) && wfAddr(addr)
 //@   modifies nothing
+//@   ensures [C15:invalid-zero-key] !isValidAddr(addr) ==> r.z == netip.z0 && r.addr.hi == 0 && r.addr.lo == 0
+//@   ensures [C15:v4-subnet] is4(addr) || isMapped(addr) ==> r.z == netip.z4 && r.addr.hi == 0
+//@             && r.addr.lo == (0xffff00000000 | (addr.addr.lo & 0xffffffff & (top64(cl.opts.V4Mask + 32))))
+//@   ensures [C15:v6-subnet] isValidAddr(addr) && !is4(addr) && !isMapped(addr) ==> r.z == netip.z6noz
+//@             && r.addr.hi == (addr.addr.hi & top64(cl.opts.V6Mask)) && r.addr.lo == (addr.addr.lo & top64(cl.opts.V6Mask - 64))
 
 // AllowN: the verdict is the token bucket's own verdict for the entry stored under the masked address, taken
 // while holding that entry's lock, after stamping it as seen now (the gc drops entries not seen for a minute).
 //@ func (cl *ClientLimiter) AllowN(addr netip.Addr, now time.Time, n int) (ok bool)
 //@   props C15
-//@   requires cl != nil && cl.m != nil
+//@   requires cl != nil && cl.m != nil && masksOK(cl) && wfAddr(addr)
 //@   ghost ge *e = nil
 //@   ghost gk netip.Addr = addr
 //@   ghost gv bool = false
